@@ -33,3 +33,9 @@ package cbor
 //@   requires i != nil && ipfs != nil && i.constantIdentity == nil
 //@   requires typeis(obj, "*entry.Entry") ==> validEntry(obj.(iface.IPFSLogEntry)) && (obj.(*entry.Entry).Identity == nil || obj.(*entry.Entry).Identity.Signatures != nil)
 //@   ensures [write-reports-failure] err != nil ==> result0 == cidUndef
+
+// IO builds the (package-global) codec instance and registers the CBOR atlas with the third-party library:
+// its contract is assumed, its body is not on the path of any property.
+//@ func IO
+//@   trusted
+//@   ensures err == nil ==> result0 != nil && validIO(result0)
